@@ -249,7 +249,9 @@ where
                 }
             }
 
-            if server_pending && stream_pending {
+            // An absent replier or an empty set of requestors has nothing to offer, so it
+            // counts as pending; otherwise this loop would never yield.
+            if (server_pending || server.is_none()) && (stream_pending || stream.is_empty()) {
                 // Unwrapping is safe as the underlying sink is guaranteed not to error
                 ready!(sink.poll_flush(cx)).unwrap();
 
